@@ -11,6 +11,8 @@ _EXTRA = {
             'bitarray_.BitArray.__ixor__', 'bitarray_.BitArray.__iadd__', 'bits.Bits.__lshift__', 'bits.Bits.__rshift__', 'bits.Bits.__invert__',
             'bits.Bits.__mul__', 'bits.Bits.__rmul__'],
     # pieces handed out by reads, cuts and splits are new objects that share nothing with a mutable parent
+    # a stream that a call leaves with pos outside [0, len] has a repr that does not evaluate back
+    'C19': ['bitstream.ConstBitStream.bytealign', 'bitstream.ConstBitStream._setbitpos', 'bitstream.ConstBitStream._setbytepos'],
     'C04': ['bitstream.ConstBitStream.read', 'bitstream.ConstBitStream.peek', 'bitstream.ConstBitStream.readto', 'bitstream.ConstBitStream.readlist',
             'bitstream.ConstBitStream.peeklist', 'bits.Bits.cut', 'bits.Bits.split', 'bits.Bits.cut@sweep', 'bits.Bits.split@sweep', 'bits.Bits._read_dtype_list',
             'bits.Bits.join', 'bits.Bits.__getitem__', 'bitstream.ConstBitStream.__getitem__'],
@@ -28,7 +30,13 @@ _LSB0_EXTRA = {
     'C01': ['bits.Bits.__getitem__', 'bitstream.ConstBitStream.__getitem__', 'bitstore.BitStore.getslice_withstep_lsb0', 'bitstore.BitStore.getindex_lsb0',
             'bitstore.BitStore.getslice_lsb0'],
     'C17': ['bits.Bits._setbytes_with_truncation', 'bits.Bits._setbitarray', 'bits.Bits._setfile', 'bits.Bits._setauto'],
-    'C03': ['bitarray_.BitArray.__setitem__', 'bitstream.BitStream.__setitem__', 'bitarray_.BitArray.__delitem__', 'bitstream.BitStream.__delitem__'],
+    'C03': ['bitarray_.BitArray.__setitem__', 'bitstream.BitStream.__setitem__', 'bitarray_.BitArray.__delitem__', 'bitstream.BitStream.__delitem__',
+            'bitarray_.BitArray.insert', 'bitstream.BitStream.insert', 'bitarray_.BitArray.overwrite', 'bitstream.ConstBitStream.overwrite',
+            'bitarray_.BitArray.append', 'bitstream.ConstBitStream.append', 'bitarray_.BitArray.prepend', 'bitstream.BitStream.prepend', 'bitarray_.BitArray.reverse',
+            'bitarray_.BitArray.set', 'bitarray_.BitArray.invert', 'bitarray_.BitArray.__iadd__', 'bitstream.BitStream.__iadd__', 'bitarray_.BitArray.__ilshift__',
+            'bitarray_.BitArray.__irshift__', 'bitarray_.BitArray.byteswap', 'bitarray_.BitArray.ror', 'bitarray_.BitArray.rol'],
+    'C16': ['bitarray_.BitArray.__ilshift__', 'bitarray_.BitArray.__irshift__', 'bits.Bits.__lshift__', 'bits.Bits.__rshift__', 'bits.Bits.__and__', 'bits.Bits.__invert__'],
+    'C13': ['bits.Bits.__eq__', 'bits.Bits.__hash__'],
 }
 for _p, _qs in _LSB0_EXTRA.items():
     for _q in _qs:
